@@ -214,7 +214,10 @@ def run(
 
     while not stop_event.is_set():
         # Read a header line
-        header = reader.readline()
+        try:
+            header = reader.readline()
+        except ConnectionError:
+            break
         if not header:
             break
 
@@ -228,7 +231,11 @@ def run(
         # Check if all headers have been read (as indicated by an empty line \r\n)
         if content_length and not header.strip():
             # Read body
-            body = reader.read(content_length)
+            try:
+                body = reader.read(content_length)
+            except ConnectionError:
+                # The connection was closed in the middle of a message.
+                break
             if not body:
                 break
 
